@@ -215,6 +215,7 @@ fn main() {
             let mut master = SplitMix64::new(prop_seed(&prop, seed));
             let (mut viol, mut panics, mut events) = (0usize, 0usize, 0usize);
             let mut nontrivial = HashSet::new();
+            let mut known_seen: std::collections::BTreeMap<&'static str, usize> = Default::default();
             for i in 0..n {
                 let mut r = master.fork();
                 if let Some(o) = only {
@@ -241,16 +242,29 @@ fn main() {
                         }
                     }
                 }
-                if let Some(v) = simprops::monitor(&prop, &c, &run) {
+                let fs = simprops::monitor(&prop, &c);
+                if let Some(f) = fs.iter().find(|f| f.known.is_none()) {
                     viol += 1;
-                    writeln!(meta, "violation case={} {}", i, v).unwrap();
+                    writeln!(meta, "violation case={} {}", i, f.msg).unwrap();
+                } else if let Some(f) = fs.first() {
+                    let id = f.known.unwrap();
+                    let n = known_seen.entry(id).or_insert(0usize);
+                    *n += 1;
+                    if *n == 1 {
+                        writeln!(meta, "known {} case={} {}", id, i, f.msg).unwrap();
+                    }
+                }
+                if only.is_some() {
+                    for l in simprops::describe(&c) {
+                        writeln!(meta, "event {}", l).unwrap();
+                    }
                 }
                 if only.is_some() || (i < 2) {
                     writeln!(meta, "{} case={} {:?} trace={:?}", if only.is_some() { "replay" } else { "sample" }, i,
                         (c.mc.iter().map(|m| m.serialize()).collect::<Vec<_>>(), c.ms.iter().map(|m| m.serialize()).collect::<Vec<_>>(), c.fr, c.delay_ns, c.pps, c.via_parse, c.max_trace, c.max_iter, c.cont, c.only_client, c.only_network, c.seed), c.trace).unwrap();
                 }
             }
-            writeln!(meta, "summary cases={} nontrivial={} violations={} panics={} events={}", n, nontrivial.len(), viol, panics, events).unwrap();
+            writeln!(meta, "summary cases={} nontrivial={} violations={} panics={} events={} known={:?}", n, nontrivial.len(), viol, panics, events, known_seen).unwrap();
         }
         Some("c12") => {
             let a = &args[2..];
